@@ -34,6 +34,32 @@ func (vc *VC) parseAssigns(cls []*Clause, env *Env) (regs []region, everything b
 	for _, c := range cls {
 		for _, item := range splitTop(c.Text) {
 			item = strings.TrimSpace(item)
+			if strings.HasPrefix(item, "when ") {
+				// when COND: ITEM  -- the region is empty unless COND holds (in the pre-state)
+				i := strings.Index(item, ": ")
+				if i < 0 {
+					specFail("assigns: when COND: ITEM")
+				}
+				ce, err := parseSpecExpr(item[5:i])
+				if err != nil {
+					specFail("assigns: %v", err)
+				}
+				cond := vc.evalBool(ce, env)
+				sub, every := vc.parseAssigns([]*Clause{{Kind: "assigns", Text: item[i+2:]}}, env)
+				if every {
+					return nil, true
+				}
+				for _, r := range sub {
+					r := r
+					if r.ghost != "" || r.all {
+						regs = append(regs, r)
+						continue
+					}
+					inner := r.in
+					regs = append(regs, region{heap: r.heap, in: func(loc string) string { return and(cond, inner(loc)) }})
+				}
+				continue
+			}
 			switch {
 			case item == "" || item == "nothing" || item == "fresh":
 				continue
@@ -82,8 +108,21 @@ func (vc *VC) parseAssigns(cls []*Clause, env *Env) (regs []region, everything b
 				if err != nil {
 					specFail("assigns: %v", err)
 				}
-				gt, _, err := vc.w.resolveType(te.(STypeOf).T, env.pkg)
-				if err != nil || gt == nil {
+				tex := te.(STypeOf).T
+				gt, _, err := vc.w.resolveType(tex, env.pkg)
+				fieldHeap := ""
+				if (err != nil || gt == nil) && tex.Pkg != "" {
+					// loc(Struct.field, expr)
+					stT, _, err2 := vc.w.resolveType(&STypeExpr{Name: tex.Pkg}, env.pkg)
+					if err2 != nil || stT == nil {
+						specFail("assigns: %v", err2)
+					}
+					obj, index, _ := types.LookupFieldOrMethod(stT, true, env.pkgOf(stT), tex.Name)
+					if _, ok := obj.(*types.Var); !ok || len(index) != 1 {
+						specFail("assigns: no direct field %s.%s", tex.Pkg, tex.Name)
+					}
+					fieldHeap = vc.enc.FieldHeap(stT, index[0])
+				} else if err != nil || gt == nil {
 					specFail("assigns: %v", err)
 				}
 				le, err := parseSpecExpr(parts[1])
@@ -95,6 +134,10 @@ func (vc *VC) parseAssigns(cls []*Clause, env *Env) (regs []region, everything b
 					specFail("assigns: loc() needs a Loc, got %s", lv.Sort)
 				}
 				addr := lv.T
+				if fieldHeap != "" {
+					regs = append(regs, region{heap: fieldHeap, in: func(loc string) string { return eq(loc, addr) }})
+					continue
+				}
 				for _, lf := range vc.enc.Leaves(gt) {
 					l := pathLoc(addr, lf.steps)
 					regs = append(regs, region{heap: lf.heap, in: func(loc string) string { return eq(loc, l) }})
@@ -1023,6 +1066,9 @@ func (vc *VC) dispatchCall(ifc *FuncContract, name string, actuals []SpecVal, re
 		r := vc.applyContract(fc, shortFuncName(fn), formals, acts, res, pkg, pck, stk, x.Pos())
 		es = append(es, &edge{pck, stk})
 		outs = append(outs, r)
+	}
+	if len(conds) == 2 {
+		vc.splitLits = append(vc.splitLits, conds[0])
 	}
 	vc.oblige("dispatch", name, pc, or(conds...), nil, x.Pos(), "dynamic type of the receiver is one of the library implementers of "+name)
 	_, merged := vc.mergeNamed(vc.freshName("pc_disp"), es)
